@@ -25,7 +25,7 @@ STR_METHODS = set("""join split rsplit strip lstrip rstrip startswith endswith r
 format lower upper partition rpartition splitlines isdigit isalpha isalnum isspace title capitalize
 ljust rjust center zfill expandtabs casefold swapcase islower isupper isnumeric isdecimal translate encode
 sub subn match search fullmatch findall finditer escape compile
-basename dirname normpath abspath realpath isabs relpath splitext commonprefix lstrip""".split())
+basename dirname normpath abspath realpath isabs relpath splitext commonprefix lstrip get""".split())
 
 BUILTIN_CALLS = {"int": "_symx_int", "ord": "_symx_ord", "chr": "_symx_chr", "float": "_symx_float", "str": "_symx_str"}
 
